@@ -19,6 +19,12 @@ pub fn ref_type(t: ReferenceType) -> String {
     link_type(t.to_link_type())
 }
 
+/// marker text for a value outside the modelled constructors (U+E000 private use + constructor name)
+pub fn unmodelled(debug: &str) -> String {
+    let name: String = debug.chars().take_while(|c| c.is_alphanumeric() || *c == '_').collect();
+    format!("\u{e000}unmodelled:{}", name)
+}
+
 pub fn dinline(i: &DocumentInline) -> String {
     match i {
         DocumentInline::Str(s) => gapp("Str", &[gstr(s)]),
@@ -29,7 +35,10 @@ pub fn dinline(i: &DocumentInline) -> String {
         DocumentInline::Strikeout(e) => gapp("Strike", &[dinlines(&e.inlines)]),
         DocumentInline::Link(l) => gapp("Link", &[gstr(&l.target.url), gstr(&l.target.title), link_type(l.link_type), dinlines(&l.inlines)]),
         DocumentInline::Image(l) => gapp("Image", &[gstr(&l.target.url), gstr(&l.target.title), dinlines(&l.inlines)]),
-        other => panic!("harness: unmodelled DocumentInline {:?}", other),
+        // a constructor the model does not have (the pinned reader never produces it): dumped as a
+        // marked string, so that the model disagrees with whatever the code does with it and the
+        // property predicates still run on the observed texts
+        other => gapp("Str", &[gstr(&unmodelled(&format!("{:?}", other)))]),
     }
 }
 
@@ -47,7 +56,7 @@ pub fn ginline(i: &GraphInline) -> String {
         GraphInline::Strikeout(e) => gapp("Strike", &[ginlines(e)]),
         GraphInline::Link(url, title, lt, l) => gapp("Link", &[gstr(url), gstr(title), link_type(*lt), ginlines(l)]),
         GraphInline::Image(url, title, l) => gapp("Image", &[gstr(url), gstr(title), ginlines(l)]),
-        other => panic!("harness: unmodelled GraphInline {:?}", other),
+        other => gapp("Str", &[gstr(&unmodelled(&format!("{:?}", other)))]),
     }
 }
 
@@ -86,7 +95,7 @@ pub fn dblock(b: &DocumentBlock) -> String {
                 glist(&t.rows.iter().map(|r| glist(&r.iter().map(|c| dinlines(c)).collect::<Vec<_>>())).collect::<Vec<_>>()),
             ],
         ),
-        other => panic!("harness: unmodelled DocumentBlock {:?}", other),
+        other => gapp("DPara", &["(0, 0)".to_string(), glist(&[gapp("Str", &[gstr(&unmodelled(&format!("{:?}", other)))])])]),
     }
 }
 
